@@ -319,6 +319,32 @@ def check_reader(ctx, n, exhaustive_chunking=False):
                        found_input=False)
 
 
+def check_big_frames(ctx):
+    """bodies larger than any internal block size, with a multi-byte character lying across each power-of-two byte offset
+    (a reader that decodes the body block by block breaks there); oracle: the messages sent"""
+    sizes = [1 << k for k in range(10, 18)] + [3 << 14, 5 << 13]
+    for B in sizes:
+        for ch in ("é", "€", "😀"):
+            width = len(ch.encode("utf-8"))
+            for back in range(1, width):
+                pad = B - back - 6               # the character starts `back` bytes before offset B of the body
+                msg = {"t": "a" * pad + ch + "z" * 9}
+                body = json.dumps(msg, ensure_ascii=False, separators=(",", ":")).encode("utf-8")
+                assert body[B - back:B - back + width] == ch.encode("utf-8")
+                follow = {"after": B}
+                data = oracle_frame("LenFirst", body) + oracle_frame("TypeFirst", json.dumps(follow, separators=(",", ":")).encode("utf-8"))
+                head = len(data) - len(oracle_frame("TypeFirst", json.dumps(follow, separators=(",", ":")).encode("utf-8"))) - len(body)
+                for chunks in ([data], [data[:head + B], data[head + B:]], [data[:head + B - back], data[head + B - back:]]):
+                    got, status = impl_receive_all(chunks, buffer_size=ctx.rng.choice([16, 8192, 65536]))
+                    ctx.count(("big", B, ch, back, len(chunks)), True)
+                    if got != [msg, follow] or status != "eof":
+                        ctx.report("C16:reader", "a correctly framed stream with a %d-byte body (a %d-byte character across byte %d) is not decoded into the messages sent"
+                                   % (len(body), width, B),
+                                   {"kind": "counterexample", "input": {"body_bytes": len(body), "character": ch, "crosses_offset": B, "chunk_sizes": [len(c) for c in chunks]},
+                                    "implementation": {"messages": [str(g)[:80] for g in got], "status": status}, "oracle": "the two messages sent"})
+                        return
+
+
 def gen_path(rng):
     segs = []
     for _ in range(rng.choice([1, 2, 3, 4])):
@@ -466,6 +492,7 @@ def run(ctx):
     q = ctx.quick()
     check_writer(ctx, 900 if q else 20000)
     check_reader(ctx, 400 if q else 5000, exhaustive_chunking=not q)
+    check_big_frames(ctx)
     check_uris(ctx, 500 if q else 10000)
     check_process_pipes(ctx)
 
